@@ -17,6 +17,11 @@ FIRST = {
  4: {"C01/a": "missed", "C01/b": "missed", "C02/a": "missed", "C03/a": "missed (C05 caught it)", "C04/a": "missed", "C05/b": "missed (C10 nfi)",
      "C06/a": "missed", "C07/a": "missed", "C08/b": "missed (C10 caught it)", "C10/a": "missed", "C11/a": "missed", "C11/b": "missed",
      "C12/b": "missed", "C16/b": "missed", "C18/b": "missed", "C19/b": "missed"},
+ 5: {"C01/a": "missed", "C01/b": "missed", "C02/a": "missed", "C02/b": "missed", "C03/a": "missed", "C04/a": "missed", "C04/b": "missed",
+     "C05/a": "missed", "C05/b": "missed (C10, C07 caught it)", "C06/a": "missed", "C06/b": "missed", "C07/a": "missed (C06 caught it)",
+     "C08/a": "missed (C01 caught it)", "C08/b": "missed", "C09/a": "missed (C10 nfi)", "C09/b": "missed", "C10/a": "missed", "C11/a": "missed",
+     "C12/a": "missed", "C12/b": "missed", "C13/a": "nfi", "C13/b": "missed (C12 caught it)", "C15/b": "missed", "C16/b": "missed",
+     "C17/a": "missed", "C17/b": "missed", "C18/a": "missed", "C18/b": "missed", "C19/a": "missed", "C19/b": "missed", "C20/a": "missed"},
 }
 # seeds that violate none of the properties as stated (see DESIGN section 12); archived, not claimed
 NOT_CLAIMED = {(4, "C11/a"): "a rejected text leaves the receiver partly overwritten: C11 demands rejection (still given); no property speaks about the receiver after an error"}
